@@ -247,6 +247,37 @@ def rule_C(ck, units):
         ck.ob('C.free-only-owned', 'own_data=false|%s' % f.q, f.where(n), ok, '' if ok else 'own_data is cleared in %s, which is not a known borrowing site' % f.q)
 
 
+def rule_D(ck, units):
+    """sibling agreement: block_matrix_adapter::row_iterator selects the next block column and gathers the block
+    in its constructor and in operator++ with the same code"""
+    import json
+    import c02
+    ck.rule('D.block-iterator-siblings', 'the constructor and operator++ of adapter::block_matrix_adapter::row_iterator use the same next-column selection and the same block gathering', 1)
+    done = set()
+    for u in units.values():
+        by = {}
+        for f in u.funcs:
+            if f.cls == 'amgcl::adapter::block_matrix_adapter::row_iterator' and (f.j.get('ctor') or f.q.endswith('operator++')):
+                by.setdefault(f.clsfull, {})['ctor' if f.j.get('ctor') else 'inc'] = f
+        for clsfull, d in by.items():
+            if 'ctor' not in d or 'inc' not in d or 'x' in done:
+                continue
+            done.add('x')
+            frs = {}
+            for nm, f in d.items():
+                sel = [n for n in f.nodes.values() if n['k'] == 'if' and show(n['c']).startswith('base[')]
+                gat = [n for n in f.nodes.values() if n['k'] == 'for' and any(x['k'] == 'bin' and x['op'] == '=' and show(x['x']).startswith('cur_val(') for x in walk(n['b']))
+                       and not any(a['k'] == 'for' and any(x['k'] == 'bin' and x['op'] == '=' and show(x['x']).startswith('cur_val(') for x in walk(a['b'])) and a is not n for a in walk(n['b']))]
+                frs[nm] = (json.dumps([c02.norm_tree(f, x, {}) for x in sel], sort_keys=True), json.dumps([c02.norm_tree(f, x, {}) for x in gat], sort_keys=True), len(sel), len(gat))
+            a, b = frs['ctor'], frs['inc']
+            dets = []
+            if a[0] != b[0] or a[2] == 0:
+                dets.append('the selection of the next block column differs between the constructor and operator++')
+            if a[1] != b[1] or a[3] == 0:
+                dets.append('the gathering of the block values differs between the constructor and operator++')
+            ck.ob('D.block-iterator-siblings', 'amgcl::adapter::block_matrix_adapter::row_iterator', d['inc'].where(), not dets, '; '.join(dets))
+
+
 def main(tier):
     ck = Check('C17', tier, 'C17 (clauses): private copies of user matrices are sorted on entry, caller-owned matrices are never modified, borrowed arrays are never copied or freed.')
     T = os.path.join(ir.VERIF, 'tus')
@@ -257,5 +288,6 @@ def main(tier):
     rule_A(ck, units)
     rule_B(ck, units)
     rule_C(ck, units)
+    rule_D(ck, units)
     ck.assumptions += ['that adapters expose the same entries (rows/cols/nonzeros, spmv agreement) and the algebra of reorder / scaled_problem are not decided']
     return ck.finish()
